@@ -79,3 +79,20 @@ func GetJsonDataType(t dsl.Type) JsonDataType {
 		panic(fmt.Sprintf("unexpected type %T", td))
 	}
 }
+
+// Whether t is a generic type parameter (possibly through aliases): a type whose
+// JSON datatype is not known until the parameter is given an argument.
+func IsGenericTypeParameter(t dsl.Type) bool {
+	st, ok := t.(*dsl.SimpleType)
+	if !ok {
+		return false
+	}
+	switch td := st.ResolvedDefinition.(type) {
+	case *dsl.GenericTypeParameter:
+		return true
+	case *dsl.NamedType:
+		return IsGenericTypeParameter(td.Type)
+	default:
+		return false
+	}
+}
